@@ -1458,6 +1458,10 @@ func (cs *ConsensusState) addVote(vote *types.Vote, peerKey string) (added bool,
 			// fmt.Errorf("tryAddVote: Wrong height, not a LastCommit straggler commit.")
 			return added, ErrVoteHeightMismatch
 		}
+		if cs.LastCommit == nil {
+			// height 1 has no last commit: a precommit "for height 0" is not a straggler
+			return added, ErrVoteHeightMismatch
+		}
 		added, err = cs.LastCommit.AddVote(vote)
 		if added {
 			log.Debug("Added to lastPrecommits: " + cs.LastCommit.StringShort())
